@@ -48,12 +48,22 @@ def closed_form_ops(rng):
     # entries of very different magnitude (exact powers of two): tiny but non-zero entries are invertible
     tiny = [rng.choice([2.0 ** -40, -(2.0 ** -30), 2.0 ** 20, 1.0, 2.0 ** -60, -(2.0 ** 12)]) for _ in range(n_)]
     dtiny = DiagonalOperator(gen.arr(tiny), axis_destination=-1, in_structure=s)
+    # scalars of extreme magnitude, as Python floats (weakly typed) and as strongly typed 0-d arrays: tiny but
+    # non-zero scalars are invertible (exact powers of two keep the round trip exact)
+    from furax._base.core import HomothetyOperator
+    hv = rng.choice([2.0 ** -70, -(2.0 ** -60), 2.0 ** -30, 2.0 ** 40, -(2.0 ** -24), 2.0 ** -100])
+    hform = rng.choice(['python', 'float32', 'float32'])
+    if hform == 'float32' and abs(hv) < 2.0 ** -100:
+        hv = 2.0 ** -90
+    htiny = HomothetyOperator(hv if hform == 'python' else jnp.asarray(hv, dtype=jnp.float32), s)
     bd = BlockDiagonalOperator({'b': d, 'a': [h, gen.mk_diagonal_first(rng, s)]})
     bd2 = BlockDiagonalOperator([r, gen.mk_hwp(rng, st) if rng.random() < 0.3 else r.T])
     return [('homothety', h, True), ('diagonal', d, True), ('diagonal-with-zeros', dz, False),
             ('identity', IdentityOperator(s), True), ('qurot', r, True), ('qurotT', r.T, True),
             ('moveaxis', m, True), ('blockdiag', bd, True), ('diag-inverse', d.I, True),
             ('diagonal-extreme-magnitudes', dtiny, True),
+            ('homothety-extreme-magnitude', htiny, True),
+            ('blockdiag-extreme-scalar', BlockDiagonalOperator([htiny, d]), True),
             ('blockdiag-extreme', BlockDiagonalOperator([dtiny, [d]]), True)]
 
 
